@@ -95,7 +95,8 @@ def run(module, cfg, workdir, *, workers=16, timeout=600, env=None, extra=(), co
         if m:
             r.generated = int(m.group(1))
     if not r.ok and not r.violated and not r.deadlock:
-        raise TlcError('TLC failed (rc=%s):\n%s' % (p.returncode, p.stdout[-4000:]))
+        k = max(0, p.stdout.find('Error:'))
+        raise TlcError('TLC failed (rc=%s):\n%s\n...\n%s' % (p.returncode, p.stdout[k:k + 2500], p.stdout[-600:]))
     return r
 
 
